@@ -2,7 +2,7 @@
 
 Workload: trees of instrumented user objects (Node, own registered printer that accepts trailing_comment) mixed with lists, tuples,
 dicts, comments and trailing comments. Every Node of every tree is made to fail in turn (fault keyed by node identity, so it fails every
-time it is printed), at two points (before / after its children were printed), with each of seven exception classes; pairs are sampled.
+time it is printed), at two points (before / after its children were printed), with each of 17 exception classes (incl. falsy instances, failing __str__, equal-to-everything); pairs are sampled.
 Oracle: the output must equal the output of the same tree with the failing node replaced by a Stub whose registered printer returns
 repr(node) - the same Doc as the fallback, hence the byte-identical layout; >= 1 UserWarning naming the injected printer and the exception
 and no other warning; the fault-free tree printed before and after must not change; the visited-set trace monitor (C13) stays on.
@@ -17,7 +17,7 @@ from .. import values as V
 from . import c13
 
 LEVEL = 'fault_enumeration'
-RULE = ('random trees (depth <= 3) of Node objects, lists, tuples, dicts with comments/trailing comments; for every tree, EVERY Node x 7 exception classes x 2 fault points is injected '
+RULE = ('random trees (depth <= 3) of Node objects, lists, tuples, dicts with comments/trailing comments; for every tree, EVERY Node x 17 exception classes x 2 fault points is injected '
         '(all single faults enumerated), pairs of failing nodes sampled, invalid return values at top level and nested; a case is (tree, failing node set, exception, point); '
         'non-trivial = the failing node is not the root (it has healthy surroundings) or carries a comment')
 ASSUMPTIONS = ['repr(node) is deterministic', 'a nested invalid return may surface either as ValueError out of pformat or as a fallback warning carrying it (the statement does not say which)']
@@ -32,13 +32,33 @@ class StrFails(Exception):
         raise RuntimeError('str() of this exception fails')
 
 
+class FalsyError(Exception):
+    """an exception instance that is falsy (a 'collection of errors' raised empty)"""
+    def __bool__(self):
+        return False
+
+
+class EmptyErrorList(Exception):
+    def __len__(self):
+        return 0
+
+
+class EqAnything(Exception):
+    def __eq__(self, other):
+        return True
+
+    def __hash__(self):
+        return 0
+
+
 def _unicode_error(msg):
     return UnicodeDecodeError('utf-8', b'\xff', 0, 1, msg)
 
 
 EXCS = {'ValueError': ValueError, 'TypeError': TypeError, 'KeyError': KeyError, 'AttributeError': AttributeError, 'RuntimeError': RuntimeError,
         'RecursionError': RecursionError, 'UserError': UserError, 'StopIteration': StopIteration, 'UnicodeDecodeError': _unicode_error,
-        'OSError': lambda msg: OSError(2, msg), 'AssertionError': AssertionError, 'StrFails': StrFails, 'ImportError': ImportError, 'LookupError': LookupError}
+        'OSError': lambda msg: OSError(2, msg), 'AssertionError': AssertionError, 'StrFails': StrFails, 'ImportError': ImportError, 'LookupError': LookupError,
+        'FalsyError': FalsyError, 'EmptyErrorList': EmptyErrorList, 'EqAnything': EqAnything}
 
 
 class Node:
@@ -239,9 +259,27 @@ def root_name(r):
     return r[1] if r[0] in ('node', 'dnode', 'pnode') else None
 
 
-def significant(ws):
-    """the package warns that a printer without a trailing_comment parameter will not show the comment: expected, not judged"""
+def significant(ws, recipe=None):
+    """the package warns that a printer WITHOUT a trailing_comment parameter (PNode's) will not show the comment: expected, not judged - but only
+    where such a printer really sits under a trailing comment; for printers that accept the parameter that warning would name a wrong cause"""
+    if recipe is not None and not pnode_under_tcomment(recipe):
+        return list(ws)
     return [w for w in ws if 'does not support rendering trailing comments' not in w[1]]
+
+
+def pnode_under_tcomment(r, under=False):
+    k = r[0]
+    if k == 'tcomment':
+        return pnode_under_tcomment(r[1], True)
+    if k == 'comment':
+        return pnode_under_tcomment(r[1], under)
+    if k in ('node', 'dnode', 'pnode'):
+        return (k == 'pnode' and under) or any(pnode_under_tcomment(c) for c in r[2])
+    if k in ('list', 'tuple'):
+        return any(pnode_under_tcomment(c) for c in r[1])
+    if k == 'dict':
+        return any(pnode_under_tcomment(a) or pnode_under_tcomment(b) for a, b in r[1])
+    return False
 
 
 def inject(sh, recipe, names, failing, excname, point, cfg, baseline):
@@ -262,7 +300,7 @@ def inject(sh, recipe, names, failing, excname, point, cfg, baseline):
     c13.TR.budget = 10 ** 7
     try:
         text, ws = M.pp(tree, **cfg)
-        ws = significant(ws)
+        ws = significant(ws, recipe)
     except M.MonitorAbort as e:
         sh.violation('monitor-abort', str(e), case)
         return
@@ -585,7 +623,7 @@ def replay(wit):
 
 
 TECHNIQUE = 'fault injection at every printer invocation (by node identity) with a differential oracle (stub-printer tree) + warning recorder + visited-set trace checker'
-LEVEL_TEXT = ('For every generated tree, every instrumented node is made to fail in turn with each of seven exception classes at two points of its printer (all single faults enumerated; pairs and invalid '
+LEVEL_TEXT = ('For every generated tree, every instrumented node is made to fail in turn with each of 17 exception classes (incl. falsy instances, failing __str__, equal-to-everything) at two points of its printer (all single faults enumerated; pairs and invalid '
               'return values sampled); the output must be byte-identical to the same tree with only that node replaced by its repr, with the right warning, and later fault-free prints must be unaffected.')
 LEVEL_NOTE = 'Trees are random (not all shapes); faults are injected in a user printer registered by the harness, the containment code under test is the real _run_pretty.'
 ANCHORS = ['prettyprinter._run_pretty', 'prettyprinter._warn_about_bad_printer', 'prettyprinter.PrettyContext.end_visit']
